@@ -71,3 +71,207 @@ def run(coro_fn, start_us=0):
             pass
         asyncio.set_event_loop(None)
         loop.close()
+
+
+# ----------------------------------------------------------------------------------------------------------------------
+# Added (builder recv8): a loop object that somebody else creates / runs, and sync task bodies with a VIRTUAL duration.
+import threading
+from concurrent.futures import ThreadPoolExecutor
+
+_TLS = threading.local()
+
+
+class VPool(ThreadPoolExecutor):
+    """A ThreadPoolExecutor (the real one: its queue, its threads, its shutdown) whose work items can spend *virtual* time:
+    a function running in one of its threads calls `thread_vsleep(us)` and is parked until a timer of the owning PLoop wakes
+    it `us` of virtual time later.  The pool keeps the account the loop needs to decide whether the clock may jump:
+        queued (submitted, not yet picked by a thread, not cancelled) / running (in a thread, not parked) / parked /
+        delivering (the function has returned, the loop has not yet seen the result)
+    - the clock is held while an item is running or delivering, or an item is queued and a thread is free to pick it; it is
+    NOT held while every thread is occupied by a parked item (queued items wait behind them: what a pool smaller than the
+    number of in-flight sync tasks looks like).
+    shutdown(): the real shutdown in two steps - first without joining (this is where cancel_futures cancels what is still
+    queued), then every parked item is woken and no item parks any more, then the join if `wait` is set: joining blocks the
+    event-loop thread, the clock cannot move meanwhile, so whatever is still in the pool finishes at the instant of the
+    shutdown.  `on_shutdown(wait, cancel_futures)` is called first (the driver logs it)."""
+
+    def __init__(self, loop, max_workers=None, on_shutdown=None, **kw):
+        super().__init__(max_workers=max_workers, **kw)
+        assert isinstance(loop, PLoop), "harness: a VPool needs a PLoop"
+        self.vloop = loop
+        self.k = self._max_workers
+        self.lock = threading.Lock()
+        self.queued = self.running = self.parked = self.delivering = 0
+        self.released = False
+        self.entries = []
+        self.on_shutdown = on_shutdown
+        loop._pools.append(self)
+
+    # -- the account
+    def hold(self):
+        with self.lock:
+            return self.running > 0 or self.delivering > 0 or (self.queued > 0 and self.running + self.parked < self.k)
+
+    def submit(self, fn, /, *args, **kwargs):
+        pool = self
+
+        def item():
+            with pool.lock:
+                pool.queued -= 1
+                pool.running += 1
+            _TLS.pool = pool
+            try:
+                return fn(*args, **kwargs)
+            finally:
+                _TLS.pool = None
+                with pool.lock:
+                    pool.running -= 1
+                    pool.delivering += 1
+
+        with self.lock:
+            self.queued += 1
+        try:
+            cf = super().submit(item)
+        except BaseException:
+            with self.lock:
+                self.queued -= 1
+            raise
+
+        def gone(f):
+            if f.cancelled():           # cancelled while queued: no thread will ever pick it
+                with pool.lock:
+                    pool.queued -= 1
+
+        cf.add_done_callback(gone)
+        cf._vpool = self
+        return cf
+
+    def _delivered(self):
+        with self.lock:
+            self.delivering -= 1
+
+    # -- virtual time spent inside a pool thread
+    def _vsleep(self, us):
+        ev = threading.Event()
+        entry = dict(ev=ev, armed=False, woken=False, handle=None)
+        with self.lock:
+            if self.released:
+                return
+            self.entries.append(entry)
+        try:
+            self.vloop.call_soon_threadsafe(self._arm, entry, us)
+        except RuntimeError:            # loop closed
+            return
+        ev.wait(60)
+
+    def _arm(self, entry, us):
+        with self.lock:
+            if entry["woken"]:
+                return
+            entry["armed"] = True
+            self.running -= 1
+            self.parked += 1
+        entry["handle"] = self.vloop.call_later(us / 1e6, self._wake, entry)
+
+    def _wake(self, entry):
+        with self.lock:
+            if entry["woken"]:
+                return
+            entry["woken"] = True
+            if entry["armed"]:
+                self.parked -= 1
+                self.running += 1
+            if entry in self.entries:
+                self.entries.remove(entry)
+        if entry["handle"] is not None:
+            entry["handle"].cancel()
+        entry["ev"].set()
+
+    def release_all(self):
+        with self.lock:
+            self.released = True
+            todo = list(self.entries)
+        for e in todo:
+            self._wake(e)
+
+    def shutdown(self, wait=True, *, cancel_futures=False):
+        if self.on_shutdown is not None:
+            self.on_shutdown(wait, cancel_futures)
+        super().shutdown(wait=False, cancel_futures=cancel_futures)
+        self.release_all()
+        if wait:
+            super().shutdown(wait=True)
+
+
+def thread_vsleep(us):
+    """called from a function that runs in a pool thread: spend `us` microseconds of virtual time (nothing when the thread
+    does not belong to a VPool - then a sync body takes no virtual time, as before)"""
+    pool = getattr(_TLS, "pool", None)
+    if pool is not None and us and us > 0:
+        pool._vsleep(us)
+
+
+class PLoop(VLoop):
+    """VLoop + the account of VPools (see there); any other executor is handled as in VLoop"""
+
+    def __init__(self, start_us=0):
+        super().__init__(start_us)
+        self._pools = []
+        inner = self._selector.select
+        loop = self
+
+        def select(timeout=None):
+            if loop._ready or not any(p.hold() for p in loop._pools):
+                return inner(timeout)
+            # a pool thread is really running (or about to): let VLoop's select wait for its wake-up instead of jumping
+            loop._exec_pending += 1
+            try:
+                return inner(timeout)
+            finally:
+                loop._exec_pending -= 1
+
+        self._selector.select = select
+
+    def run_in_executor(self, executor, func, *args):
+        if not isinstance(executor, VPool):
+            return super().run_in_executor(executor, func, *args)
+        self._check_closed()
+        cf = executor.submit(func, *args)
+        fut = asyncio.wrap_future(cf, loop=self)
+
+        # registered AFTER wrap_future's own callback: the result is queued on the loop before the account lets the clock go
+        def done(f):
+            if not f.cancelled():
+                try:
+                    self.call_soon_threadsafe(executor._delivered)
+                except RuntimeError:
+                    executor._delivered()
+
+        cf.add_done_callback(done)
+        return fut
+
+
+def finish(loop):
+    """what `run` does when the main coroutine has ended, for a loop that was run by somebody else: cancel what is left,
+    shut down async generators and the default executor, close"""
+    try:
+        pending = [t for t in asyncio.all_tasks(loop) if not t.done()]
+        for t in pending:
+            t.cancel()
+        if pending:
+            loop.run_until_complete(asyncio.gather(*pending, return_exceptions=True))
+        loop.run_until_complete(loop.shutdown_asyncgens())
+        loop.run_until_complete(loop.shutdown_default_executor())
+    except BaseException:
+        pass
+    asyncio.set_event_loop(None)
+    loop.close()
+
+
+def run_on(loop, coro_fn):
+    """`run` on a loop object the caller made (a PLoop, a loop created by the code under test)"""
+    asyncio.set_event_loop(loop)
+    try:
+        return loop.run_until_complete(coro_fn(loop))
+    finally:
+        finish(loop)
